@@ -262,7 +262,7 @@ func (r *VersionRange) tildeMatch(version, constraint *Version) bool {
 		if len(version.parts) > 0 {
 			vPart = version.parts[0]
 		}
-		return vPart == constraint.parts[0]
+		return samePart(vPart, constraint.parts[0])
 
 	default: // ~1.2, ~1.2.3, etc. mean major and minor must match
 		// Major and minor must match for constraints with 2 or more parts.
@@ -271,7 +271,7 @@ func (r *VersionRange) tildeMatch(version, constraint *Version) bool {
 			if i < len(version.parts) {
 				vPart = version.parts[i]
 			}
-			if vPart != constraint.parts[i] {
+			if !samePart(vPart, constraint.parts[i]) {
 				return false
 			}
 		}
@@ -299,14 +299,14 @@ func (r *VersionRange) caretMatch(version, constraint *Version) bool {
 	// ^0.0.3 allows 0.0.x (patch is significant since major=0 and minor=0)
 
 	// Determine which components must match exactly
-	if len(constraint.parts) >= 1 && constraint.parts[0] != "0" {
+	if len(constraint.parts) >= 1 && !samePart(constraint.parts[0], "0") {
 		// Major is non-zero, so major must match
 		vPart := "0"
 		if len(version.parts) > 0 {
 			vPart = version.parts[0]
 		}
-		return vPart == constraint.parts[0]
-	} else if len(constraint.parts) >= 2 && constraint.parts[1] != "0" {
+		return samePart(vPart, constraint.parts[0])
+	} else if len(constraint.parts) >= 2 && !samePart(constraint.parts[1], "0") {
 		// Major is zero but minor is non-zero, so major and minor must match
 		for i := 0; i < 2; i++ {
 			vPart := "0"
@@ -317,7 +317,7 @@ func (r *VersionRange) caretMatch(version, constraint *Version) bool {
 			if i < len(constraint.parts) {
 				cPart = constraint.parts[i]
 			}
-			if vPart != cPart {
+			if !samePart(vPart, cPart) {
 				return false
 			}
 		}
@@ -330,7 +330,7 @@ func (r *VersionRange) caretMatch(version, constraint *Version) bool {
 			if i < len(version.parts) {
 				vPart = version.parts[i]
 			}
-			if vPart != constraint.parts[i] {
+			if !samePart(vPart, constraint.parts[i]) {
 				return false
 			}
 		}
@@ -339,6 +339,12 @@ func (r *VersionRange) caretMatch(version, constraint *Version) bool {
 }
 
 // String returns the string representation of the range
+// samePart reports whether two version parts denote the same value under the
+// ordering Compare uses ("01" and "1" are the same part)
+func samePart(a, b string) bool {
+	return a == b || naturalCompare(a, b) == 0
+}
+
 func (r *VersionRange) String() string {
 	return r.original
 }
